@@ -95,12 +95,43 @@ class Sec:
         self._cdeps = {}
 
     # ------------------------------------------------------------ components
+    def _reach_components(self, seed, fam):
+        """Structure-preserving forward closure from a receive result: inside the receiving function
+        family, plus one-way descent into plain (non-async) helper functions that are handed a
+        component as argument (their results are not followed back)."""
+        fg = self.fg
+
+        def fam_of(n):
+            return fg.bodies[n[0]].owner if n[0] != "F" else None
+        plain = {}
+
+        def is_plain(k):
+            if k not in plain:
+                bb = fg.bodies[k]
+                plain[k] = bb.kind in ("Fn", "AssocFn") and not bb.j.get("async") and bb.krate == "polytune"
+            return plain[k]
+
+        def edge_ok(e):
+            if not struct_edge(e):
+                return False
+            if e.src[0] == "F" or e.dst[0] == "F":
+                return True
+            fs, fd = fam_of(e.src), fam_of(e.dst)
+            if fs == fd:
+                return True
+            if fs == fam and e.kind == "callarg" and is_plain(e.dst[0]):
+                return True     # descend into a helper
+            if fs != fam and fd != fam and e.kind == "callarg" and is_plain(e.dst[0]):
+                return True     # helper calling helper
+            return False
+        return fg.forward([seed], edge_ok=edge_ok)
+
     def _components(self):
         fg = self.fg
         for s in self.recv_sites:
             fam = s.body.owner
             seed = fg.node_of_place(s.bk, s.term["d"])
-            reach = fg.forward([seed], edge_ok=struct_edge, node_ok=lambda n, fam=fam: n[0] == "F" or fg.bodies[n[0]].owner == fam)
+            reach = self._reach_components(seed, fam)
             self.comp_by_site[id(s)] = reach
             for lab in (s.label or ["?"]):
                 d = self.comp.setdefault(lab, {})
@@ -112,7 +143,7 @@ class Sec:
                 b = fg.bodies[bk]
                 fam = b.owner
                 seed = fg.node_of_place(bk, t["d"])
-                reach = fg.forward([seed], edge_ok=struct_edge, node_ok=lambda n, fam=fam: n[0] == "F" or fg.bodies[n[0]].owner == fam)
+                reach = self._reach_components(seed, fam)
                 d = self.comp.setdefault("decrypt", {})
                 for n, e in reach.items():
                     d.setdefault(n, e)
